@@ -234,6 +234,7 @@ class FnSpec:
         self.closures = {}      # k -> text
         self.iters = {}         # k -> name
         self.proofs = []        # (anchor, text)
+        self.ghosts = []        # `let ghost` snapshot lines inserted at function entry
         self.trusted = False
         self.no_canary = None
         self.returns = "r"
@@ -260,6 +261,14 @@ def parse_vspec(text: str, path: str) -> dict:
             cur.closures[section[1]] = t
         elif section[0] == "proof":
             cur.proofs.append((section[1], t))
+        elif section[0] == "ghost":
+            # ghost snapshots of by-value `mut` parameters (Verus has no old() for them): `let ghost x0 = x;` only
+            for gl in t.split("\n"):
+                if gl.strip() and not re.match(r"^\s*let ghost \w+ = [\w@.()]+;\s*$", gl):
+                    raise Undecided(f"{path}: @ghost accepts only `let ghost <name> = <path>;` lines, got {gl.strip()!r}")
+            if section[1] != "entry":
+                raise Undecided(f"{path}: @ghost supports only the anchor `entry`")
+            cur.ghosts.append(t)
         buf = []
 
     for ln, line in enumerate(text.splitlines(), 1):
@@ -291,6 +300,9 @@ def parse_vspec(text: str, path: str) -> dict:
         elif s.startswith("@proof "):
             flush()
             section = ("proof", s[len("@proof "):].strip())
+        elif s.startswith("@ghost "):
+            flush()
+            section = ("ghost", s[len("@ghost "):].strip())
         elif s == "@trusted":
             cur.trusted = True
         elif s.startswith("@no_canary"):
@@ -361,6 +373,9 @@ def splice_body(body: str, spec: FnSpec, n_loops: int, key: str) -> str:
         raise Undecided(f"{key}: unreplaced marker")
     # proof insertions
     if spec:
+        for text in spec.ghosts:
+            i = body.index("{")
+            body = body[:i + 1] + "\n" + text + body[i + 1:]
         for anchor, text in spec.proofs:
             block = "proof {\n" + text + "\n}"
             if anchor == "entry":
@@ -568,7 +583,12 @@ def assemble(unit: dict, scratch: str, passname="A") -> Assembled:
     for f in tr["fns"]:
         if f["in_trait_decl"] and not unit.get("emit_trait_defaults"):
             continue
-        g = (f["impl_type"], f["impl_generics"], f["impl_self_ty"]) if f["impl_type"] else None
+        # trait impls are emitted as `impl Trait for T` only for the (trait, type) pairs a unit opts into via
+        # "trait_impls": {"Trait for T": [ghost items (spec fns) of the impl]}; everything else stays an inherent impl
+        tkey = f"{f.get('trait')} for {f['impl_self_ty']}" if f.get("trait") and not f["in_trait_decl"] else None
+        if tkey not in unit.get("trait_impls", {}):
+            tkey = None
+        g = (f["impl_type"], f["impl_generics"], f["impl_self_ty"], f.get("impl_where", ""), tkey) if f["impl_type"] else None
         if g not in groups:
             groups[g] = []
             order.append(g)
@@ -582,8 +602,17 @@ def assemble(unit: dict, scratch: str, passname="A") -> Assembled:
 
     emit("// ==== functions extracted from /repo (bodies rewritten only by rules T1-T12) ====")
     for g in order:
+        deferred = []   # canaries of trait-impl methods go into an inherent impl after the trait impl
         if g is not None:
-            emit(f"impl{g[1]} {g[2]} {{")
+            wh = (" " + g[3]) if g[3] else ""
+            if g[4]:
+                emit(f"impl{g[1]} {g[4]}{wh} {{")
+                for it in groups[g][0].get("impl_assoc", []):
+                    emit("    " + it)
+                for it in unit["trait_impls"][g[4]]:
+                    emit("    " + it)
+            else:
+                emit(f"impl{g[1]} {g[2]}{wh} {{")
         for f in groups[g]:
             key = f["key"]
             sp = specs.get(key)
@@ -611,6 +640,9 @@ def assemble(unit: dict, scratch: str, passname="A") -> Assembled:
             asm.fn_ranges.append((start, lines, key, "fn"))
             asm.fns[key] = f
             if sp and sp.contract.strip() and not sp.trusted and sp.no_canary is None and unit.get("canaries", True):
+                if g is not None and g[4]:
+                    deferred.append((f, key, contract, body))
+                    continue
                 cs = lines + 1
                 emit(f"// @@canary {key}")
                 emit("/*@canary*/ " + fn_header(f, name_override=f["name"] + "__canary"))
@@ -620,6 +652,23 @@ def assemble(unit: dict, scratch: str, passname="A") -> Assembled:
                 asm.fn_ranges.append((cs, lines, key, "canary"))
                 asm.n_canaries += 1
         if g is not None:
+            emit("}")
+        if deferred:
+            wh = (" " + g[3]) if g[3] else ""
+            emit(f"impl{g[1]} {g[2]}{wh} {{")
+            for (f, key, contract, body) in deferred:
+                cs = lines + 1
+                emit(f"// @@canary {key}")
+                hdr = fn_header(f, name_override=f["name"] + "__canary")
+                for it in f.get("impl_assoc", []):
+                    an = it.split()[1]
+                    hdr = hdr.replace(f"Self::{an}", f"<Self as {f['trait']}>::{an}")
+                emit(hdr)
+                req = strip_ensures(contract)
+                emit(req + ("\n" if req.strip() else "") + "    ensures false,")
+                emit(body)
+                asm.fn_ranges.append((cs, lines, key, "canary"))
+                asm.n_canaries += 1
             emit("}")
     text += "\n".join(out) + "\n} // verus!\nfn main() {}\n"
     asm.text = text
